@@ -43,6 +43,16 @@ class Watchdog:
         return 'hang', None
 
     def close(self):
+        if self.p is not None and self.p.poll() is None:
+            try:        # let the worker save its statement-coverage data (ignored when it does not answer)
+                self.p.stdin.write(json.dumps({'kind': '__quit__'}) + '\n')
+                self.p.stdin.flush()
+                r, _, _ = select.select([self.p.stdout], [], [], 5.0)
+                if r:
+                    self.p.stdout.readline()
+                    self.p.wait(timeout=5)
+            except Exception:
+                pass
         if self.p is not None:
             try:
                 self.p.kill()
